@@ -545,6 +545,13 @@ def run_check(prop, tier, seed, args):
                 print(f"HARNESS-ERROR process stub does not conform to real multiprocessing on anchor {a['name']}: "
                       f"real={a['real']} sim={a['sim']}", file=sys.stderr)
                 return 2
+    if rc == 0:
+        from .core import reach_self_check
+
+        missing = reach_self_check(prop, agg, agg.runs, b["runs"])
+        if missing:
+            print(f"HARNESS-ERROR reach probes stuck at zero for {prop}: {missing}", file=sys.stderr)
+            return 2
     nre = 0
     if rc == 0 and not agg.violations:
         from .cli import recheck_sample
